@@ -22,4 +22,41 @@ by the first iteration that returns, `none` when the loop runs to its end. -/
 def rangeReturn {α ρ : Type} (xs : List α) (body : α → Option ρ) : Option ρ :=
   xs.findSome? body
 
+/-- a Go map: `none` = the nil map, otherwise its entries as an association list (an earlier entry hides a
+later one with the same key; the order of the entries is not observable by the translated subset: a `range`
+over a map is only translated when its result does not depend on the order). -/
+abbrev Map (κ ν : Type) := Option (List (κ × ν))
+
+/-- `v, ok := m[k]`: `none` = absent (reading from the nil map finds nothing) -/
+def Map.find {κ ν : Type} [BEq κ] (m : Map κ ν) (k : κ) : Option ν := (m.getD []).lookup k
+
+/-- `m[k]` as a value: the zero value of the element type when absent -/
+def Map.get {κ ν : Type} [BEq κ] (m : Map κ ν) (k : κ) (zero : ν) : ν := (Map.find m k).getD zero
+
+/-- `m == nil` -/
+def Map.isNil {κ ν : Type} (m : Map κ ν) : Bool := m.isNone
+
+/-- the entries a `range` visits (each key once: an entry hidden by an earlier one is skipped) -/
+def Map.entriesAux {κ ν : Type} [BEq κ] : List (κ × ν) → List κ → List (κ × ν)
+  | [], _ => []
+  | (k, v) :: r, seen => if seen.contains k then entriesAux r seen else (k, v) :: entriesAux r (k :: seen)
+
+def Map.entries {κ ν : Type} [BEq κ] (l : List (κ × ν)) : List (κ × ν) := Map.entriesAux l []
+
+/-- `for k := range m` -/
+def Map.keys {κ ν : Type} [BEq κ] (m : Map κ ν) : List κ := (Map.entries (m.getD [])).map (·.1)
+
+/-- `for _, v := range m` -/
+def Map.vals {κ ν : Type} [BEq κ] (m : Map κ ν) : List ν := (Map.entries (m.getD [])).map (·.2)
+
+/-- `m[k] = v`; `none` = "assignment to entry in nil map" panic -/
+def Map.insert? {κ ν : Type} [BEq κ] (m : Map κ ν) (k : κ) (v : ν) : Option (Map κ ν) :=
+  match m with
+  | none => none
+  | some l => some (some ((k, v) :: l))
+
+/-- `delete(m, k)` (nothing happens on the nil map or when the key is absent) -/
+def Map.erase {κ ν : Type} [BEq κ] (m : Map κ ν) (k : κ) : Map κ ν :=
+  m.map fun l => l.filter fun e => !(e.1 == k)
+
 end Gen.Rt
